@@ -7,6 +7,7 @@ Line protocol for `BB.SectorWriter` (the sector-sharing block writer):
 * `sw-put n`            `Put(n)`: new writer                                 → `<writer index> <offset>`
 * `sw-write i hex`      one `Write` call of writer `i` with these bytes      → device image
 * `sw-writeflush i hex` the last `Write` call of writer `i`, then `flush()`   → device image and the `WriteAt` calls of this step
+* `sw-writefail i hex j` a `Write` call whose `j`-th `WriteAt` fails                → image, `WriteAt`s, `alive`/`dead`
 * `sw-flush i`          `flush()` of writer `i`                              → device image
 * `sw-space c n`        `HasSpace(n)` for a block of `c` sectors                 → `true` / `false`
 * `sw-dev n`            first `n` bytes of the device                        → hex
@@ -63,6 +64,16 @@ def step (s : S) (line : String) : S × String :=
         (s', report s s')
       | none => (s, "bad-op")
     | _, _ => (s, "bad-op")
+  | ["sw-writefail", i, hex, j] =>   -- a Write call during which the j-th WriteAt fails (if there are that many)
+    match nat? i, hexBytes? hex, nat? j with
+    | some i, some bs, some j =>
+      match s.ws[i]? with
+      | some w =>
+        match w.writeFail s.m bs j with
+        | (m', some w') => let s' := { s with m := m', ws := s.ws.set! i w' }; (s', report s s' ++ " alive")
+        | (m', none) => let s' := { s with m := m' }; (s', report s s' ++ " dead")
+      | none => (s, "bad-op")
+    | _, _, _ => (s, "bad-op")
   | ["sw-flush", i] =>
     match nat? i with
     | some i =>
